@@ -77,8 +77,16 @@ def gen_case(rng, ties=True):
     return kinds, grids, obs, n_mech, psi, sig
 
 
+def offsets(kinds, seed):
+    """every fifth toy model has outputs that take negative values (not for log-normal noise, whose
+    support is the positive axis)"""
+    if seed % 5 != 3:
+        return None
+    return [0.0 if k == 'LN' else 3.0 for k in kinds]
+
+
 def build(chi, kinds, grids, obs, n_mech, seed):
-    model = toy.ToyModel(len(kinds), n_mech, seed)
+    model = toy.ToyModel(len(kinds), n_mech, seed, offsets(kinds, seed))
     ems = [c04.classes(chi)[k][0]() for k in kinds]
     return model, chi.LogLikelihood(model, ems, [list(o) for o in obs], [list(g) for g in grids])
 
@@ -112,7 +120,7 @@ def run_case(ctx, chi, kinds, grids, obs, n_mech, psi, sig, seed, tag='gen'):
     nontriv = arr in ('tied', 'disjoint', 'nested', 'overlapping', 'empty-output')
     ctx.case(arr, nontrivial='%s/%s/%s' % (arr, ''.join(kinds), [len(g) for g in grids]) if nontriv else False,
              sample=inp)
-    model = toy.ToyModel(len(kinds), n_mech, seed)
+    model = toy.ToyModel(len(kinds), n_mech, seed, offsets(kinds, seed))
     table = [[[tbits(t), model.value(psi, o, t)] for t in sorted(set(grids[o]))] for o in range(len(kinds))]
     data = [[[tbits(t) for t in grids[o]], list(obs[o])] for o in range(len(kinds))]
     mo = ctx.model('C01.call', False, len(kinds), kinds, data, table, list(sig))
@@ -217,9 +225,9 @@ def run_case(ctx, chi, kinds, grids, obs, n_mech, psi, sig, seed, tag='gen'):
             oi = [np.round(o_) + 1 for o_ in obs]
             ems_f = [c04.classes(chi)[k][0]() for k in kinds]
             ems_i = [c04.classes(chi)[k][0]() for k in kinds]
-            lf = chi.LogLikelihood(toy.ToyModel(len(kinds), n_mech, seed), ems_f,
+            lf = chi.LogLikelihood(toy.ToyModel(len(kinds), n_mech, seed, offsets(kinds, seed)), ems_f,
                                    [list(map(float, o_)) for o_ in oi], [list(map(float, g_)) for g_ in gi])
-            li = chi.LogLikelihood(toy.ToyModel(len(kinds), n_mech, seed), ems_i,
+            li = chi.LogLikelihood(toy.ToyModel(len(kinds), n_mech, seed, offsets(kinds, seed)), ems_i,
                                    [np.asarray(o_, dtype=np.int64) for o_ in oi],
                                    [np.asarray(g_, dtype=np.int64) for g_ in gi])
             with np.errstate(all='ignore'):
@@ -229,6 +237,16 @@ def run_case(ctx, chi, kinds, grids, obs, n_mech, psi, sig, seed, tag='gen'):
                      dict(inp, times=gi, obs=oi), {'float_data': a, 'integer_data': b})
         except Exception as e:  # noqa
             ctx.spec('C01.whole_number_data', False, dict(inp), {'raised': repr(e)[:200]})
+    if ctx.cases % 4 == 2:
+        other = params * np.linspace(1.1, 1.3, len(params))
+        ctx.inplace_reuse('C01.array_changed_in_place_between_calls/LogLikelihood',
+                          lambda a: (float(ll(a)), np.asarray(ll.compute_pointwise_ll(a), float)), params, other, inp)
+        pr_ = pints.ComposedLogPrior(*[pints.GaussianLogPrior(1.0, 2.0) for _ in params])
+        po_ = chi.LogPosterior(ll, pr_)
+        ctx.inplace_reuse('C01.array_changed_in_place_between_calls/LogPosterior', lambda a: float(po_(a)),
+                          params, other, inp)
+        with np.errstate(all='ignore'):
+            ctx.spec('C01.posterior', core.close(float(po_(other)), float(pr_(other)) + float(ll(other))), inp)
     # posterior = prior + likelihood
     if ctx.cases % 5 == 0:
         prior = pints.ComposedLogPrior(*[pints.GaussianLogPrior(1.0, 2.0) for _ in params])
